@@ -1,6 +1,7 @@
 """C05 - SM4 block encryption is the GM/T 0002 permutation and decryption is its inverse (sm4/sm4.go)."""
 ID = "C05"
 PROPS = "Props/C05.v"
+COQ_TIMEOUT = 5400   # Coq build of this property incl. rebuilt dependencies; generous: on a loaded machine a rebuild after an upstream edit took > 1500 s
 GEN = ["sm4tables", "sm4consts"]
 LEGS = [{"driver": "c05", "runner": ("sm4", "Extract/ExtractSM4.v", "Sm4_model")}]
 
